@@ -35,8 +35,7 @@ structure Kernels (α : Type) where
 
 variable {α : Type} [Scalar α]
 
-def two : α := ofInt 2
-def half : α := ofRat 1 2
+open Bpp.PNorm (two half)
 def minusOne : α := ofInt (-1)
 /-- `.000002` (cpp:215) -/
 def chLo : α := PNorm.dy 4722366482869645 71
